@@ -96,7 +96,8 @@ def render_lit(l):
     if k == "dbl":
         return l[1]
     if k == "str":
-        return '"' + l[1] + '"'
+        q = "'" if len(l) > 2 and l[2] == "sq" else '"'
+        return q + l[1] + q
     if k == "bool":
         return "true" if l[1] else "false"
     if k == "list":
@@ -105,6 +106,8 @@ def render_lit(l):
         return "{" + ", ".join(f"{render_lit(a)}: {render_lit(b)}" for a, b in l[1]) + "}"
     if k == "enum":
         return f"{l[1]}.{l[2]}"
+    if k == "const":
+        return l[1]
     raise ValueError(l)
 
 
@@ -117,8 +120,32 @@ def render_field(f):
     return f"  {f['id']}: {req}{render_ty(f['ty'])} {f['name']}{d}{ann},"
 
 
+# constants are not items of a document's type universe: they live in doc["consts"] = [(name, ty, literal)] and, for the lowering
+# of a default that names one, in this registry (names are unique across the documents of a run)
+CONSTS = {}
+
+
+def unescape(s):
+    """what rustc makes of the escapes the IDL grammar admits inside a literal (the generator pastes the raw text into a Rust
+    string literal): \\ \" \' \n"""
+    out, i = [], 0
+    while i < len(s):
+        if s[i] == "\\" and i + 1 < len(s) and s[i + 1] in "\\\"'n":
+            out.append({"\\": "\\", '"': '"', "'": "'", "n": "\n"}[s[i + 1]])
+            i += 2
+        else:
+            out.append(s[i])
+            i += 1
+    return "".join(out)
+
+
 def render(doc):
     out = []
+    for name, ty, lit in doc.get("consts", []):
+        CONSTS[name] = (ty, lit)
+        out.append(f"const {render_ty(ty)} {name} = {render_lit(lit)}")
+    if doc.get("consts"):
+        out.append("")
     for it in doc["items"]:
         k = it["kind"]
         if k in ("struct", "exception", "union"):
@@ -186,6 +213,8 @@ def canon(v):
 def lower_default(items, ty, lit):
     """IDL default literal -> the value it denotes for a field of type ty (independent of pilota's lit_into_ty)"""
     k = ty[0]
+    if lit[0] == "const":
+        return lower_default(items, ty, CONSTS[lit[1]][1])
     if k == "ref":
         it = items[ty[1]]
         if it["kind"] == "typedef":
@@ -214,7 +243,7 @@ def lower_default(items, ty, lit):
     if k == "double":
         return ("dbl", dbl_bits(float(lit[1])))
     if k in ("string", "binary"):
-        return ("bin", lit[1].encode())
+        return ("bin", unescape(lit[1]).encode())
     if k in ("list", "set"):
         return (k, ttype(items, ty[1]), [lower_default(items, ty[1], x) for x in lit[1]])
     if k == "map":
@@ -450,7 +479,9 @@ def arg_types(doc):
     for it in doc["items"]:
         if it["kind"] == "service":
             for m in it["methods"]:
-                for f in m["args"]:
+                # resolve.rs lowers method arguments, the return type and the exception types with is_args = true (direct
+                # references only: container elements are lowered with false)
+                for f in list(m["args"]) + list(m["throws"]) + ([{"ty": m["ret"]}] if m["ret"] is not None else []):
                     if f["ty"][0] == "ref":
                         out.add(f["ty"][1])
     return out
@@ -854,6 +885,38 @@ def fixed_docs():
             F(19, "h3", ("list", ("i16",)), "default", ("list", [("int", -1, "hex"), ("int", 16, "hex"), ("int", -17)])), F(20, "h4", ("double",), "optional", ("int", -32, "hex")),
         ]},
     ]})
+    # defaults given through constants, escapes inside string literals (both quote styles), and structs all of whose defaults are
+    # zero values (0, false, "", an enum's zero) on required, optional and default-requiredness fields
+    docs.append({"name": "dd", "consts": [
+        ("GREETING", ("string",), ("str", 'say \\"hi\\"\\n')), ("PLAIN", ("string",), ("str", "plain")), ("BACK", ("string",), ("str", "a\\\\b")),
+        ("ANSWER", ("i32",), ("int", 42)), ("BIG", ("i64",), ("int", -9000000000)), ("RATIO", ("double",), ("dbl", "2.5")), ("YES", ("bool",), ("bool", True)),
+        ("ZERO", ("i32",), ("int", 0)), ("EMPTY", ("string",), ("str", "")),
+    ], "items": [
+        {"kind": "enum", "name": "Mode", "members": [("Off", 0), ("On", 1)]},
+        {"kind": "struct", "name": "Esc", "fields": [
+            F(1, "a", ("string",), "default", ("str", "back\\\\slash")), F(2, "b", ("string",), "default", ("str", "it\\'s", "sq")),
+            F(3, "c", ("string",), "optional", ("str", 'q\\"q')), F(4, "d", ("binary",), "default", ("str", "x\\ny")),
+            F(5, "e", ("string",), "default", ("const", "GREETING")), F(6, "f", ("string",), "optional", ("const", "PLAIN")),
+            F(7, "g", ("i32",), "default", ("const", "ANSWER")), F(8, "h", ("double",), "optional", ("const", "RATIO")),
+            F(9, "i", ("i64",), "required", ("const", "BIG")), F(10, "j", ("bool",), "default", ("const", "YES")),
+            F(11, "k", ("string",), "required", ("const", "BACK")), F(12, "l", ("list", ("string",)), "default", ("list", [("str", 'a\\"'), ("const", "GREETING")]))]},
+        {"kind": "struct", "name": "Zeros", "fields": [
+            F(1, "a", ("i32",), "default", ("int", 0)), F(2, "b", ("bool",), "optional", ("int", 0)), F(3, "c", ("string",), "default", ("str", "")),
+            F(4, "d", ("double",), "optional", ("int", 0)), F(5, "e", ("i64",), "required", ("int", 0)), F(6, "m", R("Mode"), "optional", ("enum", "Mode", "Off")),
+            F(7, "z", ("i32",), "optional", ("const", "ZERO")), F(8, "s", ("string",), "optional", ("const", "EMPTY")), F(9, "n", ("i16",), "optional")]},
+        {"kind": "struct", "name": "ZerosReq", "fields": [F(1, "a", ("i32",), "required", ("int", 0)), F(2, "b", ("bool",), "required", ("bool", False)), F(3, "c", ("string",), "default", ("str", ""))]},
+        {"kind": "struct", "name": "UsesZeros", "fields": [F(1, "z", R("Zeros"), "required"), F(2, "zs", ("list", R("Zeros")), "optional"), F(3, "e", R("Esc"), "optional")]},
+        # field ids whose distances are congruent to a short compact delta modulo 2^8 / 2^16 without being one, declared out of order
+        {"kind": "struct", "name": "Sparse", "fields": [F(1, "a", ("i32",), "required"), F(258, "b", ("i32",), "required"), F(259, "c", ("string",), "optional"), F(250, "d", ("bool",), "optional"),
+                                                        F(5, "e", ("i64",), "optional"), F(517, "f", ("i16",), "optional"), F(4, "g", ("bool",), "required"), F(32767, "h", ("i8",), "optional"), F(16, "i", ("double",), "optional")]},
+        {"kind": "exception", "name": "NotFound", "fields": [F(1, "what", ("string",))]},
+        {"kind": "exception", "name": "Denied", "fields": [F(1, "who", ("string",)), F(2, "code", ("i32",), "optional")]},
+        # exception ids that are not 1..n in order, on value-returning and void methods
+        {"kind": "service", "name": "Vault", "methods": [
+            {"name": "open", "ret": R("Sparse"), "oneway": False, "args": [F(3, "key", ("string",)), F(1, "z", R("Zeros"))], "throws": [F(2, "nf", R("NotFound")), F(4, "dn", R("Denied"))]},
+            {"name": "shut", "ret": None, "oneway": False, "args": [F(7, "key", ("string",))], "throws": [F(3, "dn", R("Denied"))]},
+            {"name": "swap", "ret": ("list", ("i32",)), "oneway": False, "args": [], "throws": [F(9, "dn", R("Denied")), F(2, "nf", R("NotFound"))]}]},
+    ]})
     return docs
 
 
@@ -907,7 +970,7 @@ def random_doc(r, name):
         return None
 
     for s in structs:
-        ids = sorted(r.sample(list(range(1, 40)) + [100, 255, 256, 4000, 32767], r.randrange(1, 7)))
+        ids = sorted(r.sample(list(range(1, 40)) + [100, 250, 255, 256, 257, 258, 270, 271, 513, 4000, 32767], r.randrange(1, 7)))
         if r.random() < 0.3:
             r.shuffle(ids)
         fields = []
